@@ -3,7 +3,7 @@ from .srv import SrvFamily
 from .fe import FeFamily
 from .c18_extra import ProxyGate   # C18 machinery: the proxy clause (theorem Props.C18.proxy_gate)
 
-PROPS_MODULES = ["C07", "Dispatch", "C18"]
+PROPS_MODULES = ["C07", "Dispatch", "C18", "FrontendOps"]
 RULE = ("family `srv` (gate mode): for every gated request, negotiation histories in which exactly its protocol-feature bit is "
         "missing / exactly it is present / none / all, with VHOST_USER_F_PROTOCOL_FEATURES acknowledged or not, NEED_REPLY on/off, "
         "plus random orders of GET/SET_FEATURES, GET/SET_PROTOCOL_FEATURES interleaved with gated requests; the real "
